@@ -15,6 +15,8 @@ from .core import MachineryError
 
 BASE = 1_000_000_000
 _STORE = {}
+_CUR = {"S": None}
+CACHE_KW = [["region", "short"], ["timeout", "60"], ["verif_x", "7"]]      # the cached def's own cache_* arguments
 
 
 def _cache_plugin():
@@ -24,6 +26,11 @@ def _cache_plugin():
         """A backend without any locking: check-then-set on a plain dict."""
 
         def get_or_create(self, key, creation_function, **kw):
+            S = _CUR.get("S")
+            if S is not None and S.me() is not None:
+                # what this thread read from the shared Cache._def_regions entry (cache.py _get_cache_kw)
+                S.log({"th": S.me(), "ev": "memo", "cell": "def_regions", "key": str(key),
+                       "kw": [[a, str(kw[a])] for a in sorted(kw) if a != "context"]})
             k = (self.cache.id, key)
             if k not in _STORE:
                 _STORE[k] = creation_function()
@@ -85,7 +92,7 @@ def concretise(items):
             prog += [{"op": "shared", "c": "inc"}, {"op": "emit", "tok": "i"}, {"op": "ctx"}]
         elif k == "cached":
             lines.append("${cd()}")
-            prog += [{"op": "shared", "c": "cache"}, {"op": "emit", "tok": "c"}]
+            prog += [{"op": "shared", "c": "cache", "kw": CACHE_KW}, {"op": "emit", "tok": "c"}]
         elif k == "loop":
             lines += ["% for j in range(2):", "${loop.index} ${who}", "% endfor"]
             prog += [{"op": "emit", "tok": "0"}, {"op": "ctx"}, {"op": "emit", "tok": "1"}, {"op": "ctx"}]
@@ -115,7 +122,7 @@ def gen_world(rng, npages, n_items, bodies=None):
         body.append(("mark", marks[0]))
         lines, prog = concretise(body)
         head = ['<%inherit file="base.html"/>', '<%namespace name="lib" file="lib.html"/>',
-                '<%def name="title()">T ${who}</%def>', '<%def name="cd()" cached="True" cache_key="cd">c</%def>']
+                '<%def name="title()">T ${who}</%def>', '<%def name="cd()" cached="True" cache_key="cd" ' + " ".join('cache_%s="%s"' % (a, v) for a, v in CACHE_KW) + ">c</%def>"]
         files["p%d.html" % p] = "\n".join(head + lines) + "\n"
         progs["p%d" % p] = ([{"op": "shared", "c": "base"}, {"op": "emit", "tok": "["}, {"op": "emit", "tok": "T"}, {"op": "ctx"},
                               {"op": "emit", "tok": "|"}] + prog + [{"op": "emit", "tok": "]"}])
@@ -210,6 +217,7 @@ def run_render_execution(sc, chooser, root, timeout=30.0):
     import mako.util as mu
     _STORE.clear()
     S = sched.Scheduler(chooser, timeout=timeout)
+    _CUR["S"] = S
     mako_dir = os.path.dirname(mako.__file__)
     tr = _Tracer(S, mako_dir, sc.get("all_files", False), sc.get("hot"))
     cap = sc["cap"]
@@ -316,7 +324,7 @@ def write_files(root, files):
 
 
 def render_trace_cfg(sc, pages):
-    return ('CONSTANTS Threads = {%s} Pages = {%s} Progs <- TraceProgs CtxVals = {%s} Cells = {} Cap = %d SharedBuf = FALSE\n'
+    return ('CONSTANTS Threads = {%s} Pages = {%s} Progs <- TraceProgs CtxVals = {%s} Cells = {} Cap = %d SharedBuf = FALSE PublishEarly = FALSE\n'
             'SPECIFICATION TSpec\nCHECK_DEADLOCK FALSE\n'
             % (", ".join('"%s"' % t for t in sorted(sc["threads"])), ", ".join('"%s"' % p for p in sorted(pages)),
                ", ".join('"%s"' % c for c in sorted({c for _, c in sc["threads"].values()})), sc["cap"]))
@@ -381,6 +389,20 @@ def render_jobs(run, thorough):
     add("r2-tiny-pb1", same_page, 1, 1, 2, "pb", bound=1, limit=2500 if thorough else 100)
     add("r2-tiny-pb2", same_page, 1, 1, 2, "pb", bound=2, limit=2500 if thorough else 60)
     add("r2-unbounded-random", two_pages, 2, 6, 0, "random", num=20 * k, p=0.05)
+    # directed preemption-bound-1 sweeps: the first thread is preempted before EVERY line of the functions around one
+    # check-then-set memo site while the other thread runs a complete first render
+    cached_twice = [[("cached",), ("ctx",), ("cached",)]]
+    add("r2-memo-cache-pb1", same_page, 1, 0, 2, "pb", bound=1, limit=2000 if thorough else 400, bodies=cached_twice,
+        hot=[["cache.py", None], ["template.py", "cache"], ["util.py", "__get__"], ["runtime.py", "cache"]])
+    add("r2-memo-template-pb1", same_page, 1, 0, 2, "pb", bound=1, limit=2000 if thorough else 150, bodies=[[("ns",), ("cached",)]],
+        hot=[["template.py", "__init__"], ["template.py", "reserved_names"], ["template.py", "_get_module_info_for_template"],
+             ["template.py", "get_module_source_metadata"], ["template.py", "_compile_text"], ["util.py", "__get__"]])
+    add("r2-memo-lru-pb1", two_pages, 2, 0, 1, "pb", bound=1, limit=2000 if thorough else 150,
+        bodies=[[("inc",), ("ns",)], [("ns",), ("inc",)]],
+        hot=[["lookup.py", "get_template"], ["lookup.py", "_load"], ["lookup.py", "_check"], ["util.py", "__getitem__"],
+             ["util.py", "__setitem__"], ["util.py", "_manage_size"]])
+    add("r2-memo-lexer-pb1", two_pages, 2, 0, 2, "pb", all_files=True, bound=1, limit=1500 if thorough else 40,
+        bodies=[[("ctx",)], [("inc",)]], hot=[["lexer.py", "match_reg"]])
     # directed: every single preemption inside TemplateLookup.adjust_uri / filename_to_uri (the URI cache is an LRU that
     # other threads trim) while the other thread renders a page that adds URI-cache entries
     add("r2-uricache-pb1", two_pages, 2, 0, 1, "pb", bound=1, limit=400,
@@ -510,6 +532,8 @@ def render_mc(run, thorough, tw):
            ("rs-3t", base % ('"A", "B", "C"', '"p3"' if not thorough else '"p2", "p3"', '"A", "B"', 1 if not thorough else 2, "FALSE", live), None),
            ("rs-control-shared-buffer", (base % ('"A", "B"', '"p1", "p2"', '"A", "B"', 2, "TRUE", "")).replace("PROPERTY PrivateStacks\n", ""),
             "RenderIsolation")]
+    out.append(("rs-control-publish-early", (base % ('"A", "B"', '"p3"', '"A", "B"', 2, "FALSE", "")).replace("PublishEarly = FALSE", "PublishEarly = TRUE"),
+                "MemoCompleteWhenVisible"))
     if thorough:
         out.append(("rs-2t-cap1", base % ('"A", "B"', '"p1", "p2"', '"A", "B"', 1, "FALSE", live), None))
     return out
